@@ -59,18 +59,17 @@ func c15IsSel(e ast.Expr, recv, field string) bool {
 	return ok && id.Name == recv
 }
 
-// c15LockCall: +1 for p.lock.Lock(), -1 for p.lock.Unlock(), 0 otherwise
-func c15LockCall(s ast.Stmt) int {
-	es, ok := s.(*ast.ExprStmt)
-	if !ok {
-		return 0
-	}
-	ce, ok := es.X.(*ast.CallExpr)
+// c15Recv is the receiver name of the method being analysed (matched by structure: whatever the method calls its receiver)
+var c15Recv = "p"
+
+// c15LockExpr: +1 for <recv>.lock.Lock(), -1 for <recv>.lock.Unlock(), 0 otherwise
+func c15LockExpr(e ast.Expr, recv string) int {
+	ce, ok := e.(*ast.CallExpr)
 	if !ok {
 		return 0
 	}
 	se, ok := ce.Fun.(*ast.SelectorExpr)
-	if !ok || !c15IsSel(se.X, "p", "lock") {
+	if !ok || !c15IsSel(se.X, recv, "lock") {
 		return 0
 	}
 	switch se.Sel.Name {
@@ -82,37 +81,94 @@ func c15LockCall(s ast.Stmt) int {
 	return 0
 }
 
+// c15LockCall: the same for a statement
+func c15LockCall(s ast.Stmt) int {
+	es, ok := s.(*ast.ExprStmt)
+	if !ok {
+		return 0
+	}
+	return c15LockExpr(es.X, c15Recv)
+}
+
+// c15Site is a call of a method of the receiver: whom, and whether the mutex is held at the call site
+type c15Site struct {
+	callee string
+	locked bool
+}
+
 type c15Walker struct {
-	fn        string
-	unlocked  []string        // accesses to guarded fields outside a locked region
-	calls     map[string]bool // method of p called -> true when some call site is NOT under the lock
-	callsSeen map[string]bool
+	fn       string
+	recv     string
+	deferred bool     // `defer <recv>.lock.Unlock()` (or a deferred closure that unlocks) seen: locked until the function returns
+	unlocked []string // accesses to guarded fields outside a locked region
+	sites    []c15Site
+}
+
+func (w *c15Walker) sub(suffix string) *c15Walker {
+	return &c15Walker{fn: w.fn + suffix, recv: w.recv}
+}
+
+func (w *c15Walker) take(sub *c15Walker) {
+	w.unlocked = append(w.unlocked, sub.unlocked...)
+	w.sites = append(w.sites, sub.sites...)
 }
 
 func (w *c15Walker) expr(n ast.Node, locked bool) {
 	if n == nil {
 		return
 	}
+	locked = locked || w.deferred
 	ast.Inspect(n, func(m ast.Node) bool {
 		switch x := m.(type) {
 		case *ast.FuncLit:
+			// a closure that is not the operand of go/defer (stored, passed on): it may run later, without the lock
+			sub := w.sub("(closure)")
+			sub.block(x.Body.List, false)
+			w.take(sub)
 			return false
 		case *ast.CallExpr:
 			if se, ok := x.Fun.(*ast.SelectorExpr); ok {
-				if id, ok := se.X.(*ast.Ident); ok && id.Name == "p" {
-					w.callsSeen[se.Sel.Name] = true
-					if !locked {
-						w.calls[se.Sel.Name] = true
-					}
+				if id, ok := se.X.(*ast.Ident); ok && id.Name == w.recv {
+					w.sites = append(w.sites, c15Site{se.Sel.Name, locked})
 				}
 			}
 		case *ast.SelectorExpr:
-			if id, ok := x.X.(*ast.Ident); ok && id.Name == "p" && c15Guarded[x.Sel.Name] && !locked {
+			if id, ok := x.X.(*ast.Ident); ok && id.Name == w.recv && c15Guarded[x.Sel.Name] && !locked {
 				w.unlocked = append(w.unlocked, fmt.Sprintf("%s:%d:p.%s", w.fn, fset.Position(x.Pos()).Line, x.Sel.Name))
 			}
 		}
 		return true
 	})
+}
+
+// call handles the operand of `go` (atExit = false: a new goroutine never holds the lock) and of `defer` (atExit = true: it
+// runs when the function returns — under the lock only if an unlock was deferred BEFORE it, deferred calls run last-in first-out).
+// The arguments are evaluated where the statement stands.
+func (w *c15Walker) call(c *ast.CallExpr, locked bool, atExit bool) {
+	for _, a := range c.Args {
+		w.expr(a, locked)
+	}
+	then := atExit && w.deferred
+	switch f := c.Fun.(type) {
+	case *ast.FuncLit:
+		sub := w.sub("(closure)")
+		entry := then
+		if atExit && !w.deferred {
+			// `Lock(); defer func() { …; Unlock() }()`: the closure is entered with the state the function keeps to its end
+			entry = locked
+		}
+		after, _ := sub.block(f.Body.List, entry)
+		w.take(sub)
+		if atExit && entry && !after {
+			w.deferred = true // the deferred closure is what unlocks
+		}
+	case *ast.SelectorExpr:
+		if id, ok := f.X.(*ast.Ident); ok && id.Name == w.recv {
+			w.sites = append(w.sites, c15Site{f.Sel.Name, then})
+		} else {
+			w.expr(f.X, locked)
+		}
+	}
 }
 
 func c15Terminates(s ast.Stmt) bool {
@@ -132,9 +188,11 @@ func c15Terminates(s ast.Stmt) bool {
 // block walks a statement list; returns the lock state after it and whether it always leaves the function.
 func (w *c15Walker) block(stmts []ast.Stmt, locked bool) (bool, bool) {
 	for _, s := range stmts {
-		if d := c15LockCall(s); d != 0 {
-			locked = d > 0
-			continue
+		if es, ok := s.(*ast.ExprStmt); ok {
+			if d := c15LockExpr(es.X, w.recv); d != 0 {
+				locked = d > 0
+				continue
+			}
 		}
 		switch x := s.(type) {
 		case *ast.IfStmt:
@@ -188,6 +246,12 @@ func (w *c15Walker) block(stmts []ast.Stmt, locked bool) (bool, bool) {
 			if t {
 				return locked, true
 			}
+		case *ast.LabeledStmt:
+			var t bool
+			locked, t = w.block([]ast.Stmt{x.Stmt}, locked)
+			if t {
+				return locked, true
+			}
 		case *ast.SelectStmt:
 			for _, c := range x.Body.List {
 				cc := c.(*ast.CommClause)
@@ -197,14 +261,32 @@ func (w *c15Walker) block(stmts []ast.Stmt, locked bool) (bool, bool) {
 				w.block(cc.Body, locked)
 			}
 		case *ast.SwitchStmt:
+			if x.Init != nil {
+				w.expr(x.Init, locked)
+			}
 			if x.Tag != nil {
 				w.expr(x.Tag, locked)
 			}
 			for _, c := range x.Body.List {
+				cc := c.(*ast.CaseClause)
+				for _, e := range cc.List {
+					w.expr(e, locked)
+				}
+				w.block(cc.Body, locked)
+			}
+		case *ast.TypeSwitchStmt:
+			w.expr(x.Assign, locked)
+			for _, c := range x.Body.List {
 				w.block(c.(*ast.CaseClause).Body, locked)
 			}
 		case *ast.DeferStmt:
-			// deferred logging only
+			if c15LockExpr(x.Call, w.recv) < 0 {
+				w.deferred = true // locked until the function returns
+				continue
+			}
+			w.call(x.Call, locked, true)
+		case *ast.GoStmt:
+			w.call(x.Call, locked, false)
 		default:
 			w.expr(s, locked)
 			if c15Terminates(s) {
@@ -213,6 +295,68 @@ func (w *c15Walker) block(stmts []ast.Stmt, locked bool) (bool, bool) {
 		}
 	}
 	return locked, false
+}
+
+// c15RecvName: the name a method gives its receiver ("" when it has none)
+func c15RecvName(fd *ast.FuncDecl) string {
+	if fd == nil || fd.Recv == nil || len(fd.Recv.List) == 0 || len(fd.Recv.List[0].Names) == 0 {
+		return ""
+	}
+	return fd.Recv.List[0].Names[0].Name
+}
+
+// c15LockDiscipline: accesses to the guarded fields outside the mutex, over all methods. A method counts as entered WITH the
+// lock when it is unexported, has call sites in the file, and every one of them holds the lock — transitively (least fixpoint:
+// a helper of a helper that is only called under the lock is entered with it too); `go x.m()` and a deferred `x.m()` that runs
+// after the unlock are call sites without the lock.
+func c15LockDiscipline(methods map[string]*ast.FuncDecl) []string {
+	names := []string{}
+	for n := range methods {
+		names = append(names, n)
+	}
+	sort.Strings(names)
+	lockedEntry := map[string]bool{}
+	var unlocked []string
+	for round := 0; round <= len(names)+1; round++ {
+		unlocked = nil
+		all := map[string]bool{}  // has a call site
+		some := map[string]bool{} // has a call site without the lock
+		for _, n := range names {
+			w := &c15Walker{fn: n, recv: c15RecvName(methods[n])}
+			w.block(methods[n].Body.List, lockedEntry[n])
+			unlocked = append(unlocked, w.unlocked...)
+			for _, st := range w.sites {
+				all[st.callee] = true
+				if !st.locked {
+					some[st.callee] = true
+				}
+			}
+		}
+		next := map[string]bool{}
+		for _, n := range names {
+			if all[n] && !some[n] && !ast.IsExported(n) {
+				next[n] = true
+			}
+		}
+		same := len(next) == len(lockedEntry)
+		for n := range next {
+			if !lockedEntry[n] {
+				same = false
+			}
+		}
+		if same {
+			break
+		}
+		lockedEntry = next
+	}
+	sort.Strings(unlocked)
+	out := []string{}
+	for i, u := range unlocked {
+		if i == 0 || u != unlocked[i-1] {
+			out = append(out, u)
+		}
+	}
+	return out
 }
 
 func init() {
@@ -225,17 +369,33 @@ func init() {
 		if fd := funcDecl(f, "", "NewProvider"); fd == nil {
 			problem("C15: cursor.NewProvider not found")
 		} else {
+			// the local the new provider is built in: `<x> := new(provider)`
+			c15Recv = "p"
+			ast.Inspect(fd.Body, func(n ast.Node) bool {
+				if as, ok := n.(*ast.AssignStmt); ok && len(as.Lhs) == 1 && len(as.Rhs) == 1 {
+					if ce, ok := as.Rhs[0].(*ast.CallExpr); ok {
+						if id, ok := ce.Fun.(*ast.Ident); ok && id.Name == "new" && len(ce.Args) == 1 {
+							if t, ok := ce.Args[0].(*ast.Ident); ok && t.Name == "provider" {
+								if l, ok := as.Lhs[0].(*ast.Ident); ok {
+									c15Recv = l.Name
+								}
+							}
+						}
+					}
+				}
+				return true
+			})
 			ast.Inspect(fd.Body, func(n ast.Node) bool {
 				as, ok := n.(*ast.AssignStmt)
 				if !ok || len(as.Lhs) != 1 || len(as.Rhs) != 1 {
 					return true
 				}
 				switch {
-				case c15IsSel(as.Lhs[0], "p", "maxCurs"):
+				case c15IsSel(as.Lhs[0], c15Recv, "maxCurs"):
 					maxCurs = c15Seconds(as.Rhs[0])
-				case c15IsSel(as.Lhs[0], "p", "idleTo"):
+				case c15IsSel(as.Lhs[0], c15Recv, "idleTo"):
 					idleTo = c15Seconds(as.Rhs[0])
-				case c15IsSel(as.Lhs[0], "p", "busyTo"):
+				case c15IsSel(as.Lhs[0], c15Recv, "busyTo"):
 					busyTo = c15Seconds(as.Rhs[0])
 				}
 				return true
@@ -244,41 +404,45 @@ func init() {
 				problem("C15: NewProvider: maxCurs/idleTo/busyTo assignments not understood (%d, %d, %d)", maxCurs, idleTo, busyTo)
 			}
 		}
-		// --- free pool cap (sweepByTime: p.freePoolSz < N) and the sweeper period (p.idleTo / N)
+		// --- free pool cap (`<recv>.freePoolSz < N`) and the sweeper period (`<recv>.idleTo / N`): wherever a method of the
+		// provider has them (sweepByTime / sweeper today; a helper extracted from them is as good)
 		freeCap, divisor := int64(-1), int64(-1)
-		if fd := funcDecl(f, "provider", "sweepByTime"); fd == nil {
-			problem("C15: provider.sweepByTime not found")
-		} else {
-			ast.Inspect(fd.Body, func(n ast.Node) bool {
-				if be, ok := n.(*ast.BinaryExpr); ok && be.Op == token.LSS && c15IsSel(be.X, "p", "freePoolSz") {
-					freeCap = c15Seconds(be.Y)
+		if f != nil {
+			for _, d := range f.Decls {
+				fd, ok := d.(*ast.FuncDecl)
+				if !ok || fd.Recv == nil || fd.Body == nil {
+					continue
 				}
-				return true
-			})
-			if freeCap < 0 {
-				problem("C15: sweepByTime: `p.freePoolSz < N` not found")
+				c15Recv = c15RecvName(fd)
+				ast.Inspect(fd.Body, func(n ast.Node) bool {
+					if be, ok := n.(*ast.BinaryExpr); ok && be.Op == token.LSS && c15IsSel(be.X, c15Recv, "freePoolSz") {
+						if v := c15Seconds(be.Y); freeCap >= 0 && v != freeCap {
+							problem("C15: two different free-pool caps (%d, %d)", freeCap, v)
+						} else {
+							freeCap = v
+						}
+					}
+					if be, ok := n.(*ast.BinaryExpr); ok && be.Op == token.QUO && c15IsSel(be.X, c15Recv, "idleTo") {
+						divisor = c15Seconds(be.Y)
+					}
+					return true
+				})
 			}
 		}
-		if fd := funcDecl(f, "provider", "sweeper"); fd == nil {
-			problem("C15: provider.sweeper not found")
-		} else {
-			ast.Inspect(fd.Body, func(n ast.Node) bool {
-				if be, ok := n.(*ast.BinaryExpr); ok && be.Op == token.QUO && c15IsSel(be.X, "p", "idleTo") {
-					divisor = c15Seconds(be.Y)
-				}
-				return true
-			})
-			if divisor < 0 {
-				problem("C15: sweeper: `p.idleTo / N` not found")
-			}
+		if freeCap < 0 {
+			problem("C15: `<provider>.freePoolSz < N` not found")
+		}
+		if divisor < 0 {
+			problem("C15: `<provider>.idleTo / N` (the sweeper's period) not found")
 		}
 		// --- Shutdown closes only clsdCh
 		shutdownClosesCursors := false
 		if fd := funcDecl(f, "provider", "Shutdown"); fd == nil {
 			problem("C15: provider.Shutdown not found")
 		} else {
+			c15Recv = c15RecvName(fd)
 			ast.Inspect(fd.Body, func(n ast.Node) bool {
-				if se, ok := n.(*ast.SelectorExpr); ok && (se.Sel.Name == "close" || c15IsSel(se, "p", "curs") || c15IsSel(se, "p", "busy")) {
+				if se, ok := n.(*ast.SelectorExpr); ok && (se.Sel.Name == "close" || c15IsSel(se, c15Recv, "curs") || c15IsSel(se, c15Recv, "busy")) {
 					shutdownClosesCursors = true
 				}
 				return true
@@ -294,37 +458,7 @@ func init() {
 				}
 			}
 		}
-		unlockedCall := map[string]bool{}
-		called := map[string]bool{}
-		var unlocked []string
-		names := []string{}
-		for n := range methods {
-			names = append(names, n)
-		}
-		sort.Strings(names)
-		// pass 1: every method analysed as entered without the lock; remember call sites
-		res1 := map[string][]string{}
-		for _, n := range names {
-			w := &c15Walker{fn: n, calls: map[string]bool{}, callsSeen: map[string]bool{}}
-			w.block(methods[n].Body.List, false)
-			res1[n] = w.unlocked
-			for c := range w.callsSeen {
-				called[c] = true
-			}
-			for c := range w.calls {
-				unlockedCall[c] = true
-			}
-		}
-		// pass 2: a method that is called from this file and only ever under the lock is analysed as entered with it
-		for _, n := range names {
-			if called[n] && !unlockedCall[n] {
-				w := &c15Walker{fn: n, calls: map[string]bool{}, callsSeen: map[string]bool{}}
-				w.block(methods[n].Body.List, true)
-				unlocked = append(unlocked, w.unlocked...)
-			} else {
-				unlocked = append(unlocked, res1[n]...)
-			}
-		}
+		unlocked := c15LockDiscipline(methods)
 		if len(methods) == 0 {
 			problem("C15: no methods of provider found in pkg/cursor/provider.go")
 		}
@@ -337,10 +471,11 @@ func init() {
 		// --- Release finds the holder by cur.Id() and never compares the holder's cursor with the one released
 		byId, comparesObj := false, false
 		if fd := methods["Release"]; fd != nil {
+			c15Recv = c15RecvName(fd)
 			ast.Inspect(fd.Body, func(n ast.Node) bool {
 				switch x := n.(type) {
 				case *ast.IndexExpr:
-					if c15IsSel(x.X, "p", "curs") {
+					if c15IsSel(x.X, c15Recv, "curs") {
 						if ce, ok := x.Index.(*ast.CallExpr); ok {
 							if se, ok := ce.Fun.(*ast.SelectorExpr); ok && se.Sel.Name == "Id" {
 								byId = true
@@ -372,6 +507,7 @@ func init() {
 		// --- second locked section of GetOrCreate: is the map read before `p.curs[cur.Id()] = e`?
 		insertChecks := false
 		if fd := methods["GetOrCreate"]; fd != nil {
+			c15Recv = c15RecvName(fd)
 			var lastLock token.Pos
 			nLocks := 0
 			for _, s := range fd.Body.List {
@@ -389,7 +525,7 @@ func init() {
 			ast.Inspect(fd.Body, func(n ast.Node) bool {
 				if as, ok := n.(*ast.AssignStmt); ok && as.Pos() > lastLock {
 					for _, e := range as.Lhs {
-						if ie, ok := e.(*ast.IndexExpr); ok && c15IsSel(ie.X, "p", "curs") {
+						if ie, ok := e.(*ast.IndexExpr); ok && c15IsSel(ie.X, c15Recv, "curs") {
 							lhs[ie] = true
 							stored = true
 						}
@@ -398,7 +534,7 @@ func init() {
 				return true
 			})
 			ast.Inspect(fd.Body, func(n ast.Node) bool {
-				if ie, ok := n.(*ast.IndexExpr); ok && nLocks == 1 && ie.Pos() > lastLock && c15IsSel(ie.X, "p", "curs") && !lhs[ie] {
+				if ie, ok := n.(*ast.IndexExpr); ok && nLocks == 1 && ie.Pos() > lastLock && c15IsSel(ie.X, c15Recv, "curs") && !lhs[ie] {
 					insertChecks = true
 				}
 				return true
